@@ -136,6 +136,22 @@ CLAIMED['C12'] = dict(
     ref='4 C12, App. B',
     note='sequence names derived from sequence_ensure_subscription results, '
          'self.items and the opt parameter')
+CLAIMED['C13'] = dict(
+    technique='flow-sensitive may-alias analysis of caller data vs. '
+              'mutating operations; keyed-sort and predicate-typing '
+              'queries; alpha-renamed AST twin comparison; table folding',
+    text='Partial: no mutating operation in DT_In/DT_InSV has a receiver '
+         'that may alias the caller\'s sequence or its elements (sort and '
+         'reverse return fresh lists); every sort of the decorated list is '
+         'keyed on the decorated key only (stability); the basic-type '
+         'predicate is applied to type(value); the single- and multi-key '
+         'extractors are AST twins (getter, call step, failure handling, '
+         'None handling); asc/desc map to +1/-1, anything else raises, the '
+         'comparator multiplies. Not decided: the order produced for '
+         'concrete key values, /nocase and locale comparison results.',
+    ref='4 C13, App. B',
+    note='caller data = namespace values, sequence parameters, results of '
+         'client methods and their elements')
 PENDING = {}
 NA = {
     'C16': 'numerical identities over run-time data (sums, means, n vs n-1, '
